@@ -193,7 +193,16 @@ fn scenario_prog<S: Setup>(rng: &mut SmallRng) -> Option<Scenario<S::E>> {
         ..Default::default()
     };
     let g = gen_prog::<S>(rng, &opts);
-    let built = guarded(|| build::<S>(&g.prog)).ok()?.ok()?;
+    let built = match guarded(|| build::<S>(&g.prog)) {
+        Ok(Ok(b)) => b,
+        Ok(Err(_)) => return None,
+        Err(p) => {
+            // the builder panicked (in a dev-profile build: a debug assertion of the builder);
+            // recorded so that the parent can tell "scenario not buildable in this profile"
+            BUILD_PANIC.with(|b| *b.borrow_mut() = Some(panic_site(&p)));
+            return None;
+        }
+    };
     Some(Scenario {
         circuit: built.circuit,
         publics: g.publics,
@@ -357,13 +366,21 @@ fn outcomes(seed: u64, idx: usize) -> (String, BTreeMap<String, String>) {
     }
 }
 
+thread_local! {
+    static BUILD_PANIC: std::cell::RefCell<Option<String>> = const { std::cell::RefCell::new(None) };
+}
+
 fn worker(seed: u64, from: usize, to: usize, skip_goldilocks: bool) {
     for idx in from..to {
         // Goldilocks arithmetic uses inline assembly on x86_64, which Miri cannot interpret
         if skip_goldilocks && idx % 8 == 4 {
             continue;
         }
-        let (consumer, m) = outcomes(seed, idx);
+        BUILD_PANIC.with(|b| *b.borrow_mut() = None);
+        let (consumer, mut m) = outcomes(seed, idx);
+        if let Some(site) = BUILD_PANIC.with(|b| b.borrow_mut().take()) {
+            m.insert("__build_panic".into(), site);
+        }
         println!("{}", json!({"idx": idx, "consumer": consumer, "outcomes": m}));
     }
 }
@@ -485,6 +502,12 @@ fn main() {
             }
             if out_rel.starts_with("panic:") {
                 rep.add(CaseResult::violated(key, format!("panic/{fault}/{consumer}"), mk_detail()));
+                continue;
+            }
+            // the scenario could not even be built by the other profile's builder (a debug
+            // assertion of the *builder*): not a statement about executing the circuit
+            if let Some(site) = dev.get(idx).and_then(|d| d.get("__build_panic")) {
+                rep.add(CaseResult::inconclusive(key, format!("scenario not buildable in the dev profile (builder panic at {site})")));
                 continue;
             }
             match &out_dev {
